@@ -1685,7 +1685,10 @@ class Memoer(Tymee):
                 return None
             memo.extend(grams[i])  # extend memo with gram body part at gram i
 
-        return memo.decode()  # convert bytearray to str
+        try:
+            return memo.decode()  # convert bytearray to str
+        except UnicodeDecodeError as ex:  # received bodies not valid text
+            raise hioing.MemoerError(f"Undecodable fused memo.") from ex
 
 
 
@@ -1700,7 +1703,17 @@ class Memoer(Tymee):
             # if mid then grams dict at mid must not be empty
             if not mid in self.counts:  # missing first gram so skip
                 continue
-            memo = self.fuse(self.rxgs[mid], self.counts[mid])
+            try:
+                memo = self.fuse(self.rxgs[mid], self.counts[mid])
+            except hioing.MemoerError as ex:  # invalid memo so drop
+                logger.error("Invalid Memoer memo from %s.\n %s.",
+                             self.sources[mid], ex)
+                del self.rxgs[mid]
+                del self.counts[mid]
+                del self.sources[mid]
+                del self.vids[mid]
+                continue
+
             if memo is not None:  # allows for empty "" memo for some src
                 self.rxms.append((memo, self.sources[mid], self.vids[mid]))
                 del self.rxgs[mid]
